@@ -8,7 +8,8 @@ class C13(flow.Spec):
     shards = 16
     rule = ("a real agent with a real subscription (SubsManager/Matcher), histories of writes and candidate batches, then a stop: "
             "G graceful (tripwire, drop_handles, pending handles awaited - the sequence of command/agent.rs), also with "
-            "unprocessed candidates; C the listeners are gone (handle removed, matcher cancelled), more rows are written, then a "
+            "unprocessed candidates; S graceful with transactions committed while the matcher is draining (after the tripwire, "
+            "before the handles are dropped), with and without unprocessed candidates at the signal; C the listeners are gone (handle removed, matcher cancelled), more rows are written, then a "
             "graceful shutdown; K kill (files copied as they are); D kill while the matcher is draining. The node is restarted "
             "on the copied files with the real setup(); two such phases per history, then one more batch. Observed: meta.state "
             "found at start, whether the subscription was restored (same id) or its directory removed, restored rows vs the "
@@ -33,7 +34,7 @@ class C13(flow.Spec):
                         ops.append("W %d" % rnd.randrange(1, 4))
                     else:
                         ops.append("F")
-                stop = rnd.choice(["G", "G", "C", "K", "D"])
+                stop = rnd.choice(["G", "G", "S", "S", "C", "K", "D"])
                 tags.add("stop-" + stop)
                 if ops and ops[-1].startswith("W"):
                     tags.add("pending-at-stop")
@@ -64,6 +65,8 @@ class C13(flow.Spec):
                 toks.append("W" if o[0] == "W" else "B")
             if stop == "G":
                 toks += ["TR", "UN", "DD"]
+            elif stop == "S":
+                toks += ["TR", "W", "UN", "DD"]
             elif stop == "C":
                 toks += ["UN", "CA0", "W", "TR", "UN", "DD"]
             elif stop == "D":
